@@ -7,6 +7,7 @@ import SlogModel.Model.Ser
 import SlogModel.Model.Pack
 import SlogModel.Gen.Facts
 import Driver.Util
+import Driver.XformParse
 
 open Drv
 
@@ -42,6 +43,8 @@ structure DState where
   serCfg : Ser.Cfg := { names := [], env := [], envNames := [], hidden := [], rewrites := [] }
   packCfg : Pack.Cfg := { mode := .forward, maxBytes := 0, maxRecords := 0, tag := [] }
   pack : Pack.St := {}
+  xprog : List Xform.Step := []
+  xstate : Xform.XState := []
   routeParts : List Route.Part := []
   routeN : Nat := 0
   routePipes : List Bytes := []     -- merge keys of the pipelines, in creation order
@@ -259,6 +262,30 @@ def handlePack (st : DState) : List String → DState × String
     | _, _ => (st, "bad-op")
   | _ => (st, "bad-op")
 
+def handleXform (st : DState) : List String → DState × String
+  | "load" :: toks =>
+    match Drv.parseProgram toks with
+    | some p => ({ st with xprog := p, xstate := [] }, "ok")
+    | none => (st, "reject")
+  | "run" :: unesc :: sec :: nsec :: hs =>
+    match sec.toInt?, nsec.toNat?, unhexAll hs with
+    | some sec, some nsec, some fields =>
+      let r : Xform.Rec := { fields := fields, unescaped := unesc == "1", sec := sec, nsec := nsec }
+      match Xform.runSteps st.xstate r st.xprog with
+      | .error p => (st, s!"panic {p.name}")
+      | .ok (res, r', xs) =>
+        ({ st with xstate := xs },
+         s!"{if res == .drop then "drop" else "pass"} {if r'.unescaped then 1 else 0} {r'.sec} {r'.nsec} {" ".intercalate (r'.fields.map hex)}")
+    | _, _, _ => (st, "bad-op")
+  | ["pattern", fromEnd, h, maxRange] =>
+    match unhex h, maxRange.toNat? with
+    | some p, some mr =>
+      match Xform.newExtractor (fromEnd == "1") p mr with
+      | none => (st, "reject")
+      | some e => (st, s!"ok {hex e.left} {hex e.right} {match e.valid with | none => "*" | some t => String.ofList (t.map (fun (b : Bool) => if b then '1' else '0'))}")
+    | _, _ => (st, "bad-op")
+  | _ => (st, "bad-op")
+
 def handle (st : DState) (line : String) : DState × String :=
   match fields line with
   | "time" :: rest => (st, handleTime rest)
@@ -267,6 +294,7 @@ def handle (st : DState) (line : String) : DState × String :=
   | "route" :: rest => handleRoute st rest
   | "ser" :: rest => handleSer st rest
   | "pack" :: rest => handlePack st rest
+  | "xform" :: rest => handleXform st rest
   | ["redact", h] =>
     match unhex h with
     | none => (st, "bad-op")
